@@ -6,6 +6,19 @@ sessions with different negotiated parameters, and has never decoded a message, 
   * once per case: the whole sequence decoded in one process -> the result per message, each rendering repeated at
     once and again after every later message was processed.
 This process never decodes anything itself.
+
+Signatures: 'differs:<field>:<relation>' - message i decoded in the sequence is not what it is alone; <field> is the first of
+outcome, routes, attributes, json6, json4, str, rib that differs and <relation> says where the message stands with respect
+to what was decoded before it (new-attr-block, attr-block-seen-under-same-parameters, no-attributes, open, ...).  When the
+same attribute bytes were seen earlier under other session parameters the field is left out
+('differs:update:attr-block-seen-under-other-parameters'): whichever field shows it, the suspect is one.
+'mutated-later:<field>:<kind>' - the rendering of a message changed after later messages were processed;
+'render-not-repeatable:<field>:<kind>' - it changes when repeated at once (no later message involved).
+Every message of a case is compared; of several signatures the one raised is the first that does not involve a block seen
+under other parameters.
+
+VERIF_C19_KNOWN (sensitivity runs only, never the registered command): comma separated fnmatch patterns of signatures that are
+counted as classes 'tolerated:<signature>' instead of raised, so that a mutation can be seen behind a diagnosed finding.
 """
 
 from __future__ import annotations
@@ -21,7 +34,7 @@ from vlib.runner import Engine, Violation
 PROPERTY = 'C19'
 RULE = (
     'sequences of 2-30 [session, type, body] over 3 sessions with different negotiated parameters (A: asn4, no ADD-PATH, ipv4+ipv6 unicast; '
-    'B: 2-byte AS, ADD-PATH ipv4 unicast, ipv4 unicast+labeled; C: asn4, ADD-PATH ipv6 unicast, + ipv4 vpn), assembled from motifs biased to repeat: '
+    'B: 2-byte AS, ADD-PATH ipv4 unicast, ipv4 unicast+labeled; C: asn4, ADD-PATH ipv6 unicast, + ipv4 vpn, `capability aigp disable`), assembled from motifs biased to repeat: '
     'the same attribute block / whole UPDATE on two sessions, one byte changed, with and without MP attributes, End-of-RIB runs, a treat-as-withdraw '
     'class block then the same block valid, AS_PATH+AS4_PATH on the 2-byte then a 4-byte session, OPENs from one capability catalogue, NOTIFICATIONs, '
     'KEEPALIVE/ROUTE-REFRESH, an earlier message again at distance >= 2, NLRI bytes valid with and without a path-id; attribute blocks whose AS_PATH '
